@@ -75,8 +75,11 @@ def gen_schedule(rng, i, tier):
         files[rulesp] = rng.choice(['# starter - no rules yet\n',
                                     '[Mine]\nmatch: contains("MINE")\ncategory: Personal\nsubcategory: Own\n',
                                     '[Netflix]\nmatch: contains("NETFLIX")\ncategory: Subscriptions\nsubcategory: Streaming\ntags: fun\n'])
-    if rng.random() < 0.1:
+    if rng.random() < (0.35 if rulesp in files and b['rules_kind'] == 'csv' else 0.1):
         files[base + 'config/merchants.rules.bak'] = '# an older copy of my rules\n[Old]\nmatch: contains("OLD")\ncategory: Old\n'
+    if rng.random() < 0.3 and base + '.gitignore' not in files:
+        # the folder is (part of) the user's git repository
+        files[base + '.gitignore'] = rng.choice(['node_modules/\n*.log\n', '*.pyc\r\n.env', '# mine\nsecret.txt\n', 'data/\n'])
     if rng.random() < 0.1:
         files[base + 'config/.tally-schema'] = '1\n'
     # files edited on another platform: CRLF line endings, trailing blanks, missing final newline
